@@ -119,6 +119,304 @@ theorem gbm_closed (init sigma mu dt z0 : ℝ) (zs : List ℝ) :
   congr 2
   ring
 
+/-! ### Vasicek, local volatility, jump models -/
+
+theorem initL_eq_dropLast {β : Type} (l : List β) : initL l = l.dropLast := by
+  induction l with
+  | nil => rfl
+  | cons x xs ih =>
+    cases xs with
+    | nil => rfl
+    | cons y ys => simp only [initL, ih, List.dropLast_cons_cons]
+
+theorem vasicek_go_eq (theta m v x : ℝ) (zs : List ℝ) :
+    x :: vasicek.go theta m v x zs
+      = List.scanl (fun x zi => theta + m * (x - theta) + v * zi) x zs := by
+  induction zs generalizing x with
+  | nil => simp [vasicek.go]
+  | cons z zs ih => simp only [vasicek.go, List.scanl_cons]; rw [ih]
+
+theorem localVol_go_fst_cons (sigmaFn : ℝ → ℝ → ℝ) (dt : ℝ) (i : ℕ) (s zi : ℝ) (rest : List ℝ) :
+    (localVol.go sigmaFn dt i s (zi :: rest)).1
+      = s :: (localVol.go sigmaFn dt (i + 1)
+          (s * (1 + sigmaFn (dt * (i : ℝ)) s * (zi * Real.sqrt dt))) rest).1 := by
+  cases rest with
+  | nil => simp [localVol.go]
+  | cons z2 rest => simp [localVol.go, Transc.sqrt]
+
+theorem localVol_go_snd_cons (sigmaFn : ℝ → ℝ → ℝ) (dt : ℝ) (i : ℕ) (s zi : ℝ) (rest : List ℝ) :
+    (localVol.go sigmaFn dt i s (zi :: rest)).2
+      = sigmaFn (dt * (i : ℝ)) s :: (localVol.go sigmaFn dt (i + 1)
+          (s * (1 + sigmaFn (dt * (i : ℝ)) s * (zi * Real.sqrt dt))) rest).2 := by
+  cases rest with
+  | nil => simp [localVol.go]
+  | cons z2 rest => simp [localVol.go, Transc.sqrt]
+
+theorem localVol_go_step (sigmaFn : ℝ → ℝ → ℝ) (dt : ℝ) :
+    ∀ (zs : List ℝ) (i : ℕ) (s : ℝ) (k : ℕ) (h : k + 1 < zs.length),
+      ∃ a, (localVol.go sigmaFn dt i s zs).1[k]? = some a ∧
+        (localVol.go sigmaFn dt i s zs).1[k + 1]?
+          = some (a * (1 + sigmaFn (dt * ((i + k : ℕ) : ℝ)) a * (zs[k] * Real.sqrt dt))) := by
+  intro zs
+  induction zs with
+  | nil => intro i s k h; simp at h
+  | cons zi rest ih =>
+    intro i s k h
+    rw [localVol_go_fst_cons]
+    cases k with
+    | zero =>
+      cases rest with
+      | nil => simp at h
+      | cons z2 rest' =>
+        refine ⟨s, by simp, ?_⟩
+        rw [localVol_go_fst_cons]
+        simp
+    | succ k =>
+      have h' : k + 1 < rest.length := by simpa using h
+      obtain ⟨a, h1, h2⟩ := ih (i + 1) _ k h'
+      refine ⟨a, by simpa using h1, ?_⟩
+      have e : i + 1 + k = i + (k + 1) := by omega
+      simpa [e] using h2
+
+theorem localVol_go_vol (sigmaFn : ℝ → ℝ → ℝ) (dt : ℝ) :
+    ∀ (zs : List ℝ) (i : ℕ) (s : ℝ) (k : ℕ) (_ : k < zs.length),
+      ∃ a, (localVol.go sigmaFn dt i s zs).1[k]? = some a ∧
+        (localVol.go sigmaFn dt i s zs).2[k]? = some (sigmaFn (dt * ((i + k : ℕ) : ℝ)) a) := by
+  intro zs
+  induction zs with
+  | nil => intro i s k h; simp at h
+  | cons zi rest ih =>
+    intro i s k h
+    rw [localVol_go_fst_cons, localVol_go_snd_cons]
+    cases k with
+    | zero => exact ⟨s, by simp, by simp⟩
+    | succ k =>
+      have h' : k < rest.length := by simpa using h
+      obtain ⟨a, h1, h2⟩ := ih (i + 1) _ k h'
+      refine ⟨a, by simpa using h1, ?_⟩
+      have e : i + 1 + k = i + (k + 1) := by omega
+      simpa [e] using h2
+
+theorem zipWith_replicate_zero (jm js : ℝ) : ∀ (k : ℕ) (zj : List ℝ), k ≤ zj.length →
+    List.zipWith (fun c zz => jm * c + zz * js * Real.sqrt c) (List.replicate k (0 : ℝ)) zj
+      = List.replicate k 0 := by
+  intro k
+  induction k with
+  | zero => intro zj _; simp
+  | succ k ih =>
+    intro zj h
+    cases zj with
+    | nil => simp at h
+    | cons y ys =>
+      have h' : k ≤ ys.length := by simpa using h
+      simp [List.replicate_succ, ih ys h']
+
+theorem cumsumL_replicate_zero (n : ℕ) :
+    cumsumL (List.replicate n (0 : ℝ)) = (List.range n).map (fun _ => (0 : ℝ)) := by
+  rw [cumsumL_eq]
+  simp [List.take_replicate]
+
+theorem cumprodL_go_replicate_one (k : ℕ) :
+    cumprodL.go (1 : ℝ) (List.replicate k 1) = List.replicate k 1 := by
+  induction k with
+  | zero => rfl
+  | succ k ih => simp [List.replicate_succ, cumprodL.go, ih]
+
+theorem cumprodL_replicate_one (n : ℕ) :
+    cumprodL (List.replicate n (1 : ℝ)) = (List.range n).map (fun _ => (1 : ℝ)) := by
+  cases n with
+  | zero => rfl
+  | succ n =>
+    rw [List.replicate_succ, cumprodL, cumprodL_go_replicate_one, ← List.replicate_succ]
+    simp
+
+/-! ### expectations: iterated integrals against the normal density -/
+
+/-- `iterE step k g x` = expectation of `g (X_k)` for the chain `X_0 = x`, `X_{j+1} = step X_j Z_{j+1}`
+driven by independent standard normal draws: the `k`-fold iterated integral (tower property) -/
+noncomputable def iterE (step : ℝ → ℝ → ℝ) : ℕ → (ℝ → ℝ) → ℝ → ℝ
+  | 0, g, x => g x
+  | k + 1, g, x => ∫ z, iterE step k g (step x z) * phi z
+
+/-- time-inhomogeneous version: the transition at the `j`-th step (counted from `i`) is `step (i+j)` -/
+noncomputable def iterEt (step : ℕ → ℝ → ℝ → ℝ) : ℕ → ℕ → (ℝ → ℝ) → ℝ → ℝ
+  | _, 0, g, x => g x
+  | i, k + 1, g, x => ∫ z, iterEt step (i + 1) k g (step i x z) * phi z
+
+/-- what `iterE` computes, written out for two steps: the terminal state is the `foldl` of the
+transition over the draws (= the last entry of the `scanl` path) -/
+theorem iterE_two (step : ℝ → ℝ → ℝ) (g : ℝ → ℝ) (x : ℝ) :
+    iterE step 2 g x = ∫ z1, (∫ z2, g (List.foldl step x [z1, z2]) * phi z2) * phi z1 := rfl
+
+/-- change of state variable along an invariant set -/
+theorem iterE_conj (step step' : ℝ → ℝ → ℝ) (h g : ℝ → ℝ) (P : ℝ → Prop)
+    (hP : ∀ x z, P x → P (step x z)) (hh : ∀ x z, P x → h (step x z) = step' (h x) z) :
+    ∀ (n : ℕ) (x : ℝ), P x → iterE step n (fun y => g (h y)) x = iterE step' n g (h x) := by
+  intro n
+  induction n with
+  | zero => intro x _; rfl
+  | succ n ih =>
+    intro x hx
+    simp only [iterE]
+    congr 1
+    funext z
+    rw [ih (step x z) (hP x z hx), hh x z hx]
+
+/-- a chain whose one-step conditional mean is the current state is a martingale over any horizon
+(no regularity of `step` is needed: the inner integrals collapse from the inside) -/
+theorem iterEt_martingale (step : ℕ → ℝ → ℝ → ℝ)
+    (h1 : ∀ i x, ∫ z, step i x z * phi z = x) :
+    ∀ (k i : ℕ) (x : ℝ), iterEt step i k (fun y => y) x = x := by
+  intro k
+  induction k with
+  | zero => intro i x; rfl
+  | succ k ih =>
+    intro i x
+    simp only [iterEt, ih]
+    exact h1 i x
+
+/-- mean of the Gaussian affine chain `X' = c0 + a X + v Z` after `n` steps -/
+theorem iterE_aff_mean (c0 a v : ℝ) :
+    ∀ (n : ℕ) (x : ℝ), iterE (fun x z => c0 + a * x + v * z) n (fun y => y) x
+      = a ^ n * x + c0 * ∑ j ∈ Finset.range n, a ^ j := by
+  intro n
+  induction n with
+  | zero => intro x; simp [iterE]
+  | succ n ih =>
+    intro x
+    simp only [iterE, ih]
+    have e : (fun z => (a ^ n * (c0 + a * x + v * z) + c0 * ∑ j ∈ Finset.range n, a ^ j) * phi z)
+        = fun z => ((a ^ n * (c0 + a * x) + c0 * ∑ j ∈ Finset.range n, a ^ j) + (a ^ n * v) * z)
+            * phi z := by
+      funext z; ring
+    rw [e, integral_affine_mul_phi, Finset.sum_range_succ]
+    ring
+
+/-- second moment about any centre `c` of the Gaussian affine chain after `n` steps -/
+theorem iterE_aff_sq (c0 a v : ℝ) :
+    ∀ (n : ℕ) (x c : ℝ), iterE (fun x z => c0 + a * x + v * z) n (fun y => (y - c) ^ 2) x
+      = v ^ 2 * ∑ j ∈ Finset.range n, (a ^ 2) ^ j
+        + (a ^ n * x + c0 * ∑ j ∈ Finset.range n, a ^ j - c) ^ 2 := by
+  intro n
+  induction n with
+  | zero => intro x c; simp [iterE]
+  | succ n ih =>
+    intro x c
+    simp only [iterE, ih]
+    have e : (fun z => (v ^ 2 * ∑ j ∈ Finset.range n, (a ^ 2) ^ j
+          + (a ^ n * (c0 + a * x + v * z) + c0 * ∑ j ∈ Finset.range n, a ^ j - c) ^ 2) * phi z)
+        = fun z => (v ^ 2 * ∑ j ∈ Finset.range n, (a ^ 2) ^ j) * phi z
+            + ((a ^ n * (c0 + a * x) + c0 * ∑ j ∈ Finset.range n, a ^ j - c) + (a ^ n * v) * z) ^ 2
+              * phi z := by
+      funext z; ring
+    rw [e, integral_add (phi_integrable.const_mul _) (affine_sq_mul_phi_integrable _ _),
+      integral_const_mul, integral_phi, integral_affine_sq_mul_phi, Finset.sum_range_succ,
+      Finset.sum_range_succ]
+    ring
+
+/-- the OU transition variance factor is a square root of a non-negative number (any `kappa`) -/
+theorem ou_var_nonneg (kappa dt : ℝ) (hdt : 0 ≤ dt) :
+    0 ≤ (1 - Real.exp (-kappa * dt) ^ 2) / 2 / kappa := by
+  rcases lt_trichotomy kappa 0 with hk | hk | hk
+  · have h1 : 1 ≤ Real.exp (-kappa * dt) := Real.one_le_exp (by nlinarith)
+    have h2 : 1 - Real.exp (-kappa * dt) ^ 2 ≤ 0 := by nlinarith
+    exact div_nonneg_of_nonpos (by linarith) hk.le
+  · simp [hk]
+  · have h0 : 0 < Real.exp (-kappa * dt) := Real.exp_pos _
+    have h1 : Real.exp (-kappa * dt) ≤ 1 := Real.exp_le_one_iff.2 (by nlinarith)
+    have h2 : 0 ≤ 1 - Real.exp (-kappa * dt) ^ 2 := by nlinarith
+    positivity
+
+/-- Poisson probabilities -/
+noncomputable def poissonPmf (L : ℝ) (k : ℕ) : ℝ := Real.exp (-L) * L ^ k / (k.factorial : ℝ)
+
+/-- probability generating function of the Poisson law: `∑ₖ e^{−L} Lᵏ/k! · xᵏ = e^{L(x−1)}` -/
+theorem poisson_pgf_hasSum (L x : ℝ) :
+    HasSum (fun k : ℕ => poissonPmf L k * x ^ k) (Real.exp (L * (x - 1))) := by
+  have h := (NormedSpace.expSeries_div_hasSum_exp (𝔸 := ℝ) (L * x)).mul_left (Real.exp (-L))
+  rw [← Real.exp_eq_exp_ℝ, ← Real.exp_add] at h
+  have e1 : -L + L * x = L * (x - 1) := by ring
+  rw [e1] at h
+  refine h.congr_fun ?_
+  intro k
+  unfold poissonPmf
+  rw [mul_pow]
+  ring
+
+theorem poisson_pgf (L x : ℝ) : ∑' k : ℕ, poissonPmf L k * x ^ k = Real.exp (L * (x - 1)) :=
+  (poisson_pgf_hasSum L x).tsum_eq
+
+/-! ### closed forms of the jump generators (general counts / jumps) -/
+
+theorem cumprodL_go_eq (acc : ℝ) (ys : List ℝ) :
+    cumprodL.go acc ys = (List.range ys.length).map (fun i => acc * (ys.take (i + 1)).prod) := by
+  induction ys generalizing acc with
+  | nil => simp [cumprodL.go]
+  | cons y ys ih =>
+    simp only [cumprodL.go, ih, List.length_cons, List.range_succ_eq_map, List.map_cons,
+      List.map_map, List.take_succ_cons, List.prod_cons, List.take_zero, List.prod_nil]
+    refine congrArg₂ _ (by ring) (List.map_congr_left fun i _ => ?_)
+    simp only [Function.comp, Nat.succ_eq_add_one]
+    ring
+
+/-- `cumprod`: entry `i` is the product of the first `i + 1` entries -/
+theorem cumprodL_eq (l : List ℝ) :
+    cumprodL l = (List.range l.length).map (fun i => (l.take (i + 1)).prod) := by
+  cases l with
+  | nil => rfl
+  | cons x xs =>
+    simp only [cumprodL, cumprodL_go_eq, List.length_cons, List.range_succ_eq_map, List.map_cons,
+      List.map_map, List.take_succ_cons, List.prod_cons, List.take_zero, List.prod_nil]
+    refine congrArg₂ _ (by ring) (List.map_congr_left fun i _ => ?_)
+    simp only [Function.comp, Nat.succ_eq_add_one]
+
+/-- the aggregated jump factor of one step is `exp` of the sum of its log-jumps -/
+theorem foldl_exp_eq (a : ℝ) (js : List ℝ) :
+    js.foldl (fun acc j => acc * Real.exp j) a = a * Real.exp js.sum := by
+  induction js generalizing a with
+  | nil => simp
+  | cons j js ih => rw [List.foldl_cons, ih, List.sum_cons, Real.exp_add]; ring
+
+theorem merton_closed (init mu sigma lam jm js dt z0 : ℝ) (zs nj zj : List ℝ)
+    (hnj : nj.length = zs.length) (hzj : zj.length = zs.length) :
+    mertonJump init mu sigma lam jm js dt nj zj (z0 :: zs)
+      = (List.range (zs.length + 1)).map (fun (i : ℕ) =>
+          init * Real.exp ((mu - sigma ^ 2 / 2 - lam * (Real.exp (jm + js ^ 2 / 2) - 1)) * dt * i
+            + sigma * Real.sqrt dt * (zs.take i).sum
+            + ((List.zipWith (fun c zz => jm * c + zz * js * Real.sqrt c) nj zj).take i).sum)) := by
+  have hJ : (List.zipWith (fun c zz => jm * c + zz * js * Real.sqrt c) nj zj).length
+      = zs.length := by
+    simp [hnj, hzj]
+  unfold mertonJump
+  simp only [Transc.sqrt, Transc.exp]
+  rw [cumsumL_zeroFirst, cumsumL_eq]
+  simp only [List.length_cons, hJ, List.take_succ_cons, List.sum_cons, zero_add, List.map_map,
+    arangeL_eq, List.zip_map', zipWith_map_same]
+  refine List.map_congr_left fun i _ => ?_
+  simp only [Function.comp]
+  rw [show jm + js * js / 2 = jm + js ^ 2 / 2 by ring]
+  congr 2
+  ring
+
+theorem kou_closed (init sigma mu lam etaUp etaDown pUp dt z0 : ℝ) (zs : List ℝ)
+    (jumps : List (List ℝ)) (hj : jumps.length = zs.length) :
+    kouJump init sigma mu lam etaUp etaDown pUp dt jumps (z0 :: zs)
+      = (List.range (zs.length + 1)).map (fun (i : ℕ) =>
+          init * Real.exp ((mu - lam * ((1 - pUp) * (etaDown / (etaDown + 1))
+                + pUp * (etaUp / (etaUp - 1)) - 1) - sigma ^ 2 / 2) * dt * i
+            + sigma * Real.sqrt dt * (zs.take i).sum)
+          * ((jumps.map (fun js => Real.exp js.sum)).take i).prod) := by
+  unfold kouJump
+  simp only [Transc.sqrt, Transc.exp, List.map_cons]
+  rw [cumsumL_zeroFirst, cumprodL_eq]
+  simp only [List.length_cons, List.length_map, hj, List.take_succ_cons, List.prod_cons, one_mul,
+    arangeL_eq, List.zip_map', zipWith_map_same, List.map_take.symm, List.sum_map_mul_right,
+    List.map_id', foldl_exp_eq]
+  refine List.map_congr_left fun i _ => ?_
+  rw [mul_comm (Real.exp _) init]
+  congr 3
+  ring
+
 end PfVerif.C10Aux
 
 namespace PfVerif.C10
@@ -208,5 +506,541 @@ theorem gbm_step (init sigma mu dt : ℝ) (z : List ℝ) (i : ℕ) (h : i + 1 < 
     rw [gbm_scan]
     have h' : i < zs.length := by simpa using h
     exact scanl_step _ init zs i h'
+
+/-! ### Vasicek: exact Ornstein–Uhlenbeck transition -/
+
+/-- the Vasicek path is the scan of the exact OU transition
+`X' = theta + e^{−kappa·dt}(X − theta) + sigma·√((1 − e^{−2·kappa·dt})/(2·kappa))·z`
+over all draws but the last -/
+theorem vasicek_scan (init kappa theta sigma dt z0 : ℝ) (zs : List ℝ) :
+    vasicek init kappa theta sigma dt (z0 :: zs)
+      = List.scanl (fun x zi => theta + Real.exp (-kappa * dt) * (x - theta)
+          + sigma * Real.sqrt ((1 - Real.exp (-kappa * dt) ^ 2) / 2 / kappa) * zi)
+          init (initL (z0 :: zs)) := by
+  unfold vasicek
+  simp only [Transc.exp, Transc.sqrt]
+  rw [vasicek_go_eq, ← pow_two]
+
+theorem vasicek_head (init kappa theta sigma dt : ℝ) (z : List ℝ) (h : 0 < z.length) :
+    (vasicek init kappa theta sigma dt z)[0]? = some init := by
+  cases z with
+  | nil => simp at h
+  | cons z0 zs => rw [vasicek_scan]; exact List.getElem?_scanl_zero
+
+/-- `X_{i+1} = theta + e^{−kappa·dt}(X_i − theta) + sigma·√((1 − e^{−2 kappa dt})/(2 kappa))·z_i` -/
+theorem vasicek_step (init kappa theta sigma dt : ℝ) (z : List ℝ) (i : ℕ) (h : i + 1 < z.length) :
+    ∃ a, (vasicek init kappa theta sigma dt z)[i]? = some a ∧
+      (vasicek init kappa theta sigma dt z)[i + 1]?
+        = some (theta + Real.exp (-kappa * dt) * (a - theta)
+            + sigma * Real.sqrt ((1 - Real.exp (-kappa * dt) ^ 2) / 2 / kappa) * z[i]) := by
+  cases z with
+  | nil => simp at h
+  | cons z0 zs =>
+    rw [vasicek_scan]
+    have hl : i < (initL (z0 :: zs)).length := by
+      rw [initL_eq_dropLast, List.length_dropLast]; simpa using h
+    have he : (initL (z0 :: zs))[i] = (z0 :: zs)[i] := by
+      simp only [initL_eq_dropLast, List.getElem_dropLast]
+    rw [← he]
+    exact scanl_step _ init _ i hl
+
+/-- with all draws zero the path is the closed-form mean-reverting mean
+`theta + (init − theta)·e^{−kappa·dt·i}`, from any starting value -/
+theorem vasicek_mean_recursion (init kappa theta sigma dt : ℝ) (n : ℕ) :
+    vasicek init kappa theta sigma dt (List.replicate (n + 1) 0)
+      = (List.range (n + 1)).map
+          (fun (i : ℕ) => theta + (init - theta) * Real.exp (-kappa * dt * i)) := by
+  rw [List.replicate_succ, vasicek_scan, ← List.replicate_succ, initL_eq_dropLast,
+    List.dropLast_replicate]
+  have hl : (List.replicate (n + 1 - 1) (0 : ℝ)).length = n := by simp
+  have := scanl_eq_map_range (fun x zi => theta + Real.exp (-kappa * dt) * (x - theta)
+      + sigma * Real.sqrt ((1 - Real.exp (-kappa * dt) ^ 2) / 2 / kappa) * zi)
+    (List.replicate (n + 1 - 1) (0 : ℝ))
+    (fun (i : ℕ) => theta + (init - theta) * Real.exp (-kappa * dt * i)) init (by simp) (by
+      intro i _
+      have e : -kappa * dt * ((i + 1 : ℕ) : ℝ) = -kappa * dt + -kappa * dt * i := by
+        push_cast; ring
+      simp only [List.getElem_replicate, e, Real.exp_add]
+      ring)
+  rw [this, hl]
+
+/-! ### local volatility: Euler step -/
+
+theorem localVol_head (sigmaFn : ℝ → ℝ → ℝ) (init dt : ℝ) (z : List ℝ) (h : 0 < z.length) :
+    (localVol sigmaFn init dt z).1[0]? = some init := by
+  cases z with
+  | nil => simp at h
+  | cons z0 zs => simp [localVol, localVol_go_fst_cons]
+
+/-- `S_{i+1} = S_i·(1 + sigmaFn(t_i, S_i)·(z_i·√dt))`, `t_i = dt·i` -/
+theorem localVol_step (sigmaFn : ℝ → ℝ → ℝ) (init dt : ℝ) (z : List ℝ) (i : ℕ)
+    (h : i + 1 < z.length) :
+    ∃ a, (localVol sigmaFn init dt z).1[i]? = some a ∧
+      (localVol sigmaFn init dt z).1[i + 1]?
+        = some (a * (1 + sigmaFn (dt * (i : ℝ)) a * (z[i] * Real.sqrt dt))) := by
+  have hn : z.length ≠ 0 := by omega
+  have := localVol_go_step sigmaFn dt z 0 init i h
+  simpa [localVol, hn] using this
+
+/-- the reported volatility at step `i` is `sigmaFn(t_i, S_i)` -/
+theorem localVol_vol (sigmaFn : ℝ → ℝ → ℝ) (init dt : ℝ) (z : List ℝ) (i : ℕ)
+    (h : i < z.length) :
+    ∃ a, (localVol sigmaFn init dt z).1[i]? = some a ∧
+      (localVol sigmaFn init dt z).2[i]? = some (sigmaFn (dt * (i : ℝ)) a) := by
+  have hn : z.length ≠ 0 := by omega
+  have := localVol_go_vol sigmaFn dt z 0 init i h
+  simpa [localVol, hn] using this
+
+/-! ### jump models at zero intensity reduce to geometric Brownian motion -/
+
+/-- Merton: `lam = 0`, all Poisson counts zero (any jump normals) -/
+theorem merton_zero_intensity (init mu sigma jm js dt : ℝ) (z zj : List ℝ)
+    (hzj : z.length - 1 ≤ zj.length) :
+    mertonJump init mu sigma 0 jm js dt (List.replicate (z.length - 1) 0) zj z
+      = geometricBrownian init sigma mu dt z := by
+  cases z with
+  | nil => simp [mertonJump, geometricBrownian, arangeL]
+  | cons z0 zs =>
+    have hk : zs.length ≤ zj.length := by simpa using hzj
+    rw [gbm_closed]
+    unfold mertonJump
+    simp only [List.length_cons, Nat.add_sub_cancel, Transc.sqrt, Transc.exp,
+      zipWith_replicate_zero jm js _ zj hk, ← List.replicate_succ, cumsumL_replicate_zero,
+      cumsumL_zeroFirst, List.map_map, arangeL_eq, List.zip_map', zipWith_map_same]
+    refine List.map_congr_left fun i _ => ?_
+    simp only [Function.comp]
+    congr 2
+    ring
+
+/-- Kou: `lam = 0`, no jumps -/
+theorem kou_zero_intensity (init sigma mu etaUp etaDown pUp dt : ℝ) (z : List ℝ) :
+    kouJump init sigma mu 0 etaUp etaDown pUp dt (List.replicate (z.length - 1) []) z
+      = geometricBrownian init sigma mu dt z := by
+  cases z with
+  | nil => simp [kouJump, geometricBrownian, arangeL]
+  | cons z0 zs =>
+    rw [gbm_closed]
+    unfold kouJump
+    simp only [List.length_cons, Nat.add_sub_cancel, Transc.sqrt, Transc.exp, List.map_cons,
+      List.map_replicate, List.foldl_nil, ← List.replicate_succ, cumprodL_replicate_one,
+      cumsumL_zeroFirst, List.length_map, arangeL_eq, List.zip_map', zipWith_map_same,
+      List.map_take.symm, List.sum_map_mul_right, List.map_id']
+    refine List.map_congr_left fun i _ => ?_
+    rw [mul_one, mul_comm]
+    congr 2
+    ring
+
+/-! ### the jump models step by step (general counts / jump sizes) -/
+
+/-- Merton: `S_{i+1} = S_i·exp(drift·dt + sigma·√dt·z_{i+1} + jump_{i+1})` with the coded
+compensated drift and `jump = jm·c + zz·js·√c` for the step's Poisson count `c` and normal `zz` -/
+theorem merton_scan (init mu sigma lam jm js dt z0 : ℝ) (zs nj zj : List ℝ)
+    (hnj : nj.length = zs.length) (hzj : zj.length = zs.length) :
+    mertonJump init mu sigma lam jm js dt nj zj (z0 :: zs)
+      = List.scanl (fun S (d : ℝ × ℝ × ℝ) =>
+          S * Real.exp ((mu - sigma ^ 2 / 2 - lam * (Real.exp (jm + js ^ 2 / 2) - 1)) * dt
+            + sigma * Real.sqrt dt * d.1 + (jm * d.2.1 + d.2.2 * js * Real.sqrt d.2.1)))
+          init (List.zip zs (List.zip nj zj)) := by
+  rw [merton_closed _ _ _ _ _ _ _ _ _ _ _ hnj hzj]
+  have hl : (List.zip zs (List.zip nj zj)).length = zs.length := by simp [hnj, hzj]
+  have := scanl_eq_map_range (fun S (d : ℝ × ℝ × ℝ) =>
+      S * Real.exp ((mu - sigma ^ 2 / 2 - lam * (Real.exp (jm + js ^ 2 / 2) - 1)) * dt
+        + sigma * Real.sqrt dt * d.1 + (jm * d.2.1 + d.2.2 * js * Real.sqrt d.2.1)))
+    (List.zip zs (List.zip nj zj))
+    (fun (i : ℕ) =>
+      init * Real.exp ((mu - sigma ^ 2 / 2 - lam * (Real.exp (jm + js ^ 2 / 2) - 1)) * dt * i
+        + sigma * Real.sqrt dt * (zs.take i).sum
+        + ((List.zipWith (fun c zz => jm * c + zz * js * Real.sqrt c) nj zj).take i).sum))
+    init (by simp) (by
+      intro i h
+      have hi : i < zs.length := by rw [← hl]; exact h
+      have hJ : i < (List.zipWith (fun c zz => jm * c + zz * js * Real.sqrt c) nj zj).length := by
+        simp [hnj, hzj, hi]
+      simp only [List.sum_take_succ zs i hi, List.sum_take_succ _ i hJ, List.getElem_zip,
+        List.getElem_zipWith]
+      rw [mul_assoc init, ← Real.exp_add]
+      push_cast
+      congr 2
+      ring)
+  rw [this, hl]
+
+/-- Kou: `S_{i+1} = S_i·exp((mu − lam·m)·dt − sigma²·dt/2 + sigma·√dt·z_{i+1})·exp(Σ log-jumps of
+the step)` with the coded compensator `m` -/
+theorem kou_scan (init sigma mu lam etaUp etaDown pUp dt z0 : ℝ) (zs : List ℝ)
+    (jumps : List (List ℝ)) (hj : jumps.length = zs.length) :
+    kouJump init sigma mu lam etaUp etaDown pUp dt jumps (z0 :: zs)
+      = List.scanl (fun S (d : ℝ × List ℝ) =>
+          S * Real.exp ((mu - lam * ((1 - pUp) * (etaDown / (etaDown + 1))
+                + pUp * (etaUp / (etaUp - 1)) - 1) - sigma ^ 2 / 2) * dt
+              + sigma * Real.sqrt dt * d.1) * Real.exp d.2.sum)
+          init (List.zip zs jumps) := by
+  rw [kou_closed _ _ _ _ _ _ _ _ _ _ _ hj]
+  have hl : (List.zip zs jumps).length = zs.length := by simp [hj]
+  have := scanl_eq_map_range (fun S (d : ℝ × List ℝ) =>
+      S * Real.exp ((mu - lam * ((1 - pUp) * (etaDown / (etaDown + 1))
+            + pUp * (etaUp / (etaUp - 1)) - 1) - sigma ^ 2 / 2) * dt
+          + sigma * Real.sqrt dt * d.1) * Real.exp d.2.sum)
+    (List.zip zs jumps)
+    (fun (i : ℕ) =>
+      init * Real.exp ((mu - lam * ((1 - pUp) * (etaDown / (etaDown + 1))
+            + pUp * (etaUp / (etaUp - 1)) - 1) - sigma ^ 2 / 2) * dt * i
+          + sigma * Real.sqrt dt * (zs.take i).sum)
+        * ((jumps.map (fun js => Real.exp js.sum)).take i).prod)
+    init (by simp) (by
+      intro i h
+      have hi : i < zs.length := by rw [← hl]; exact h
+      have hJ : i < (jumps.map (fun js => Real.exp js.sum)).length := by
+        simp [hj, hi]
+      simp only [List.sum_take_succ zs i hi, List.prod_take_succ _ i hJ, List.getElem_zip,
+        List.getElem_map]
+      have e : ∀ A B P Q : ℝ, init * Real.exp (A + B) * (P * Q)
+          = init * Real.exp A * P * Real.exp B * Q := by intros; rw [Real.exp_add]; ring
+      rw [← e]
+      push_cast
+      congr 3
+      ring)
+  rw [this, hl]
+
+/-! ## in distribution -/
+
+/-! ### terminal values: what the iterated expectations integrate -/
+
+/-- the last entry of a geometric Brownian path is the fold of the exact step over the draws
+`z₁, …` — the state whose law `iterE` integrates in `gbm_mean_n`, `gbm_logvar_n` -/
+theorem gbm_last (init sigma mu dt z0 : ℝ) (zs : List ℝ) :
+    (geometricBrownian init sigma mu dt (z0 :: zs)).getLast?
+      = some (List.foldl (fun S z => S * Real.exp ((mu - sigma ^ 2 / 2) * dt
+          + sigma * Real.sqrt dt * z)) init zs) := by
+  rw [gbm_scan, List.getLast?_scanl]
+
+theorem brownian_last (init sigma mu dt z0 : ℝ) (zs : List ℝ) :
+    (brownian init sigma mu dt (z0 :: zs)).getLast?
+      = some (List.foldl (fun x z => x + (mu * dt + sigma * Real.sqrt dt * z)) init zs) := by
+  rw [brownian_scan, List.getLast?_scanl]
+
+/-- the last Vasicek rate is the fold of the exact OU transition over all draws but the last -/
+theorem vasicek_last (init kappa theta sigma dt z0 : ℝ) (zs : List ℝ) :
+    (vasicek init kappa theta sigma dt (z0 :: zs)).getLast?
+      = some (List.foldl (fun x zi => theta + Real.exp (-kappa * dt) * (x - theta)
+          + sigma * Real.sqrt ((1 - Real.exp (-kappa * dt) ^ 2) / 2 / kappa) * zi)
+          init (initL (z0 :: zs))) := by
+  rw [vasicek_scan, List.getLast?_scanl]
+
+/-! ### Brownian motion in distribution -/
+
+/-- `n` steps: `B_n` has mean `init + mu·t` and variance `sigma²·t`, `t = dt·n` -/
+theorem brownian_mean_var_n (mu sigma dt : ℝ) (hdt : 0 ≤ dt) (n : ℕ) (init : ℝ) :
+    iterE (fun x z => x + (mu * dt + sigma * Real.sqrt dt * z)) n (fun y => y) init
+      = init + mu * (dt * n) ∧
+    iterE (fun x z => x + (mu * dt + sigma * Real.sqrt dt * z)) n
+      (fun y => (y - (init + mu * (dt * n))) ^ 2) init = sigma ^ 2 * (dt * n) := by
+  have hstep : (fun x z : ℝ => x + (mu * dt + sigma * Real.sqrt dt * z))
+      = fun x z => mu * dt + 1 * x + sigma * Real.sqrt dt * z := by
+    funext x z; ring
+  rw [hstep]
+  constructor
+  · rw [iterE_aff_mean]
+    simp
+    ring
+  · rw [iterE_aff_sq]
+    simp only [one_pow, Finset.sum_const, Finset.card_range, nsmul_eq_mul, mul_one, one_mul]
+    rw [mul_pow, Real.sq_sqrt hdt]
+    ring
+
+/-! ### geometric Brownian motion -/
+
+/-- one step: `E[S_{i+1} | S_i = S] = S·e^{mu·dt}` -/
+theorem gbm_step_mean (S mu sigma dt : ℝ) (hdt : 0 ≤ dt) :
+    ∫ z, S * Real.exp ((mu - sigma ^ 2 / 2) * dt + sigma * Real.sqrt dt * z) * phi z
+      = S * Real.exp (mu * dt) := by
+  have e : (fun z => S * Real.exp ((mu - sigma ^ 2 / 2) * dt + sigma * Real.sqrt dt * z) * phi z)
+      = fun z => S * (Real.exp ((mu - sigma ^ 2 / 2) * dt + (sigma * Real.sqrt dt) * z) * phi z) := by
+    funext z; ring
+  rw [e, integral_const_mul, integral_exp_affine_mul_phi, mul_pow, Real.sq_sqrt hdt]
+  congr 2
+  ring
+
+/-- one step: the log-return `(mu − sigma²/2)·dt + sigma·√dt·Z` has mean `(mu − sigma²/2)·dt` and
+variance `sigma²·dt` -/
+theorem gbm_step_logvar (mu sigma dt : ℝ) (hdt : 0 ≤ dt) :
+    (∫ z, ((mu - sigma ^ 2 / 2) * dt + sigma * Real.sqrt dt * z) * phi z
+      = (mu - sigma ^ 2 / 2) * dt) ∧
+    (∫ z, (((mu - sigma ^ 2 / 2) * dt + sigma * Real.sqrt dt * z) - (mu - sigma ^ 2 / 2) * dt) ^ 2
+        * phi z = sigma ^ 2 * dt) := by
+  refine ⟨integral_affine_mul_phi _ _, ?_⟩
+  rw [integral_affine_centered_sq_mul_phi, mul_pow, Real.sq_sqrt hdt]
+
+/-- `n` steps: `E[S_n] = init·e^{mu·dt·n}` (iterated expectation over the `n` normal draws) -/
+theorem gbm_mean_n (mu sigma dt : ℝ) (hdt : 0 ≤ dt) (n : ℕ) (init : ℝ) :
+    iterE (fun S z => S * Real.exp ((mu - sigma ^ 2 / 2) * dt + sigma * Real.sqrt dt * z)) n
+      (fun S => S) init = init * Real.exp (mu * dt * n) := by
+  induction n generalizing init with
+  | zero => simp [iterE]
+  | succ n ih =>
+    simp only [iterE, ih]
+    have e : (fun z => init * Real.exp ((mu - sigma ^ 2 / 2) * dt + sigma * Real.sqrt dt * z)
+          * Real.exp (mu * dt * n) * phi z)
+        = fun z => Real.exp (mu * dt * n)
+            * (init * Real.exp ((mu - sigma ^ 2 / 2) * dt + sigma * Real.sqrt dt * z) * phi z) := by
+      funext z; ring
+    rw [e, integral_const_mul, gbm_step_mean _ _ _ _ hdt]
+    have e2 : mu * dt * ((n + 1 : ℕ) : ℝ) = mu * dt * n + mu * dt := by push_cast; ring
+    rw [e2, Real.exp_add]
+    ring
+
+/-- `n` steps, positive start: `log S_n` has mean `log init + (mu − sigma²/2)·t` and variance
+`sigma²·t`, `t = dt·n` -/
+theorem gbm_logvar_n (mu sigma dt : ℝ) (hdt : 0 ≤ dt) (n : ℕ) (init : ℝ) (hinit : 0 < init) :
+    iterE (fun S z => S * Real.exp ((mu - sigma ^ 2 / 2) * dt + sigma * Real.sqrt dt * z)) n
+      (fun S => Real.log S) init = Real.log init + (mu - sigma ^ 2 / 2) * (dt * n) ∧
+    iterE (fun S z => S * Real.exp ((mu - sigma ^ 2 / 2) * dt + sigma * Real.sqrt dt * z)) n
+      (fun S => (Real.log S - (Real.log init + (mu - sigma ^ 2 / 2) * (dt * n))) ^ 2) init
+      = sigma ^ 2 * (dt * n) := by
+  have hP : ∀ x z : ℝ, 0 < x →
+      0 < x * Real.exp ((mu - sigma ^ 2 / 2) * dt + sigma * Real.sqrt dt * z) :=
+    fun x z hx => mul_pos hx (Real.exp_pos _)
+  have hh : ∀ x z : ℝ, 0 < x →
+      Real.log (x * Real.exp ((mu - sigma ^ 2 / 2) * dt + sigma * Real.sqrt dt * z))
+        = (fun y z => (mu - sigma ^ 2 / 2) * dt + 1 * y + sigma * Real.sqrt dt * z)
+            (Real.log x) z := by
+    intro x z hx
+    rw [Real.log_mul hx.ne' (Real.exp_pos _).ne', Real.log_exp]
+    ring
+  constructor
+  · rw [iterE_conj _ (fun y z => (mu - sigma ^ 2 / 2) * dt + 1 * y + sigma * Real.sqrt dt * z)
+      Real.log (fun y => y) (fun x => 0 < x) hP hh n init hinit, iterE_aff_mean]
+    simp
+    ring
+  · rw [iterE_conj _ (fun y z => (mu - sigma ^ 2 / 2) * dt + 1 * y + sigma * Real.sqrt dt * z)
+      Real.log
+      (fun y => (y - (Real.log init + (mu - sigma ^ 2 / 2) * (dt * n))) ^ 2)
+      (fun x => 0 < x) hP hh n init hinit, iterE_aff_sq]
+    simp only [one_pow, Finset.sum_const, Finset.card_range, nsmul_eq_mul, mul_one, one_mul]
+    rw [mul_pow, Real.sq_sqrt hdt]
+    ring
+
+/-! ### Vasicek / Ornstein–Uhlenbeck -/
+
+/-- one step: conditional mean `theta + e^{−kappa·dt}(x − theta)` -/
+theorem vasicek_step_mean (x kappa theta sigma dt : ℝ) :
+    ∫ z, (theta + Real.exp (-kappa * dt) * (x - theta)
+          + sigma * Real.sqrt ((1 - Real.exp (-kappa * dt) ^ 2) / 2 / kappa) * z) * phi z
+      = theta + Real.exp (-kappa * dt) * (x - theta) :=
+  integral_affine_mul_phi _ _
+
+/-- one step: conditional variance `sigma²(1 − e^{−2·kappa·dt})/(2·kappa)` -/
+theorem vasicek_step_var (x kappa theta sigma dt : ℝ) (hdt : 0 ≤ dt) :
+    ∫ z, ((theta + Real.exp (-kappa * dt) * (x - theta)
+          + sigma * Real.sqrt ((1 - Real.exp (-kappa * dt) ^ 2) / 2 / kappa) * z)
+        - (theta + Real.exp (-kappa * dt) * (x - theta))) ^ 2 * phi z
+      = sigma ^ 2 * (1 - Real.exp (-2 * kappa * dt)) / (2 * kappa) := by
+  rw [integral_affine_centered_sq_mul_phi, mul_pow, Real.sq_sqrt (ou_var_nonneg kappa dt hdt)]
+  have e : Real.exp (-2 * kappa * dt) = Real.exp (-kappa * dt) ^ 2 := by
+    rw [← Real.exp_nat_mul]; congr 1; push_cast; ring
+  rw [e]
+  ring
+
+/-- `i` steps from any starting value `x0`: mean `theta + (x0 − theta)·e^{−kappa·dt·i}` and variance
+`sigma²(1 − e^{−2·kappa·dt·i})/(2·kappa)` -/
+theorem ou_mean_var_n (x0 kappa theta sigma dt : ℝ) (hdt : 0 ≤ dt) (n : ℕ) :
+    iterE (fun x z => theta + Real.exp (-kappa * dt) * (x - theta)
+        + sigma * Real.sqrt ((1 - Real.exp (-kappa * dt) ^ 2) / 2 / kappa) * z) n (fun y => y) x0
+      = theta + (x0 - theta) * Real.exp (-kappa * dt * n) ∧
+    iterE (fun x z => theta + Real.exp (-kappa * dt) * (x - theta)
+        + sigma * Real.sqrt ((1 - Real.exp (-kappa * dt) ^ 2) / 2 / kappa) * z) n
+        (fun y => (y - (theta + (x0 - theta) * Real.exp (-kappa * dt * n))) ^ 2) x0
+      = sigma ^ 2 * (1 - Real.exp (-2 * kappa * dt * n)) / (2 * kappa) := by
+  set a := Real.exp (-kappa * dt) with ha
+  set v := sigma * Real.sqrt ((1 - a ^ 2) / 2 / kappa) with hv
+  have hstep : (fun x z : ℝ => theta + a * (x - theta) + v * z)
+      = fun x z => theta * (1 - a) + a * x + v * z := by
+    funext x z; ring
+  have han : Real.exp (-kappa * dt * n) = a ^ n := by
+    rw [ha, ← Real.exp_nat_mul]; congr 1; ring
+  have ha2n : Real.exp (-2 * kappa * dt * n) = (a ^ 2) ^ n := by
+    rw [ha, ← pow_mul, ← Real.exp_nat_mul]; congr 1; push_cast; ring
+  have hgeo : (1 - a) * ∑ j ∈ Finset.range n, a ^ j = 1 - a ^ n := by
+    rw [mul_comm]; exact geom_sum_mul_neg a n
+  have hv2 : v ^ 2 = sigma ^ 2 * ((1 - a ^ 2) / 2 / kappa) := by
+    rw [hv, mul_pow, Real.sq_sqrt (ou_var_nonneg kappa dt hdt)]
+  have hmean : a ^ n * x0 + theta * (1 - a) * ∑ j ∈ Finset.range n, a ^ j
+      = theta + (x0 - theta) * a ^ n := by
+    rw [mul_assoc, hgeo]; ring
+  rw [hstep, han, ha2n]
+  constructor
+  · rw [iterE_aff_mean, hmean]
+  · rw [iterE_aff_sq, hmean, sub_self, hv2]
+    have hgeo2 : (1 - a ^ 2) * ∑ j ∈ Finset.range n, (a ^ 2) ^ j = 1 - (a ^ 2) ^ n := by
+      rw [mul_comm]; exact geom_sum_mul_neg (a ^ 2) n
+    calc sigma ^ 2 * ((1 - a ^ 2) / 2 / kappa) * ∑ j ∈ Finset.range n, (a ^ 2) ^ j + 0 ^ 2
+        = sigma ^ 2 * ((1 - a ^ 2) * ∑ j ∈ Finset.range n, (a ^ 2) ^ j) / (2 * kappa) := by ring
+      _ = sigma ^ 2 * (1 - (a ^ 2) ^ n) / (2 * kappa) := by rw [hgeo2]
+
+/-- the closed-form variance solves the recursion `V_{i+1} = e^{−2·kappa·dt}·V_i + V_1` -/
+theorem ou_var_recursion (kappa sigma dt : ℝ) (i : ℕ) :
+    sigma ^ 2 * (1 - Real.exp (-2 * kappa * dt * ((i + 1 : ℕ) : ℝ))) / (2 * kappa)
+      = Real.exp (-2 * kappa * dt) * (sigma ^ 2 * (1 - Real.exp (-2 * kappa * dt * i)) / (2 * kappa))
+        + sigma ^ 2 * (1 - Real.exp (-2 * kappa * dt)) / (2 * kappa) := by
+  have e : -2 * kappa * dt * ((i + 1 : ℕ) : ℝ) = -2 * kappa * dt * i + -2 * kappa * dt := by
+    push_cast; ring
+  rw [e, Real.exp_add]
+  ring
+
+/-! ### local volatility: martingale -/
+
+/-- one Euler step is a martingale increment: `E[S_{i+1} | S_i = S] = S` for any volatility `sg` -/
+theorem local_vol_martingale_step (S sg dt : ℝ) :
+    ∫ z, S * (1 + sg * (z * Real.sqrt dt)) * phi z = S := by
+  have e : (fun z => S * (1 + sg * (z * Real.sqrt dt)) * phi z)
+      = fun z => (S + (S * sg * Real.sqrt dt) * z) * phi z := by
+    funext z; ring
+  rw [e, integral_affine_mul_phi]
+
+/-- over any horizon and from any step `i`, for an arbitrary local volatility function:
+`E[S_{i+k} | S_i = S] = S` -/
+theorem local_vol_martingale_n (sigmaFn : ℝ → ℝ → ℝ) (dt : ℝ) (i k : ℕ) (S : ℝ) :
+    iterEt (fun j s z => s * (1 + sigmaFn (dt * (j : ℝ)) s * (z * Real.sqrt dt))) i k
+      (fun y => y) S = S :=
+  iterEt_martingale _ (fun j x => local_vol_martingale_step x (sigmaFn (dt * (j : ℝ)) x) dt) k i S
+
+/-! ### Merton: the drift correction compensates the compound-Poisson jump mean -/
+
+/-- given `c` jumps in the step, `E[e^{jm·c + Z·js·√c}] = e^{jm·c + js²·c/2}` -/
+theorem merton_jump_mgf (jm js c : ℝ) (hc : 0 ≤ c) :
+    ∫ zj, Real.exp (jm * c + zj * js * Real.sqrt c) * phi zj
+      = Real.exp (jm * c + js ^ 2 * c / 2) := by
+  have e : (fun zj => Real.exp (jm * c + zj * js * Real.sqrt c) * phi zj)
+      = fun zj => Real.exp (jm * c + (js * Real.sqrt c) * zj) * phi zj := by
+    funext zj; congr 2; ring
+  rw [e, integral_exp_affine_mul_phi, mul_pow, Real.sq_sqrt hc]
+
+/-- averaging over the Poisson(`lam·dt`) count: `E[e^{jump}] = e^{lam·dt·(e^{jm + js²/2} − 1)}` -/
+theorem merton_jump_mean (lam jm js dt : ℝ) :
+    ∑' k : ℕ, poissonPmf (lam * dt) k
+        * ∫ zj, Real.exp (jm * (k : ℝ) + zj * js * Real.sqrt (k : ℝ)) * phi zj
+      = Real.exp (lam * dt * (Real.exp (jm + js ^ 2 / 2) - 1)) := by
+  rw [← poisson_pgf]
+  congr 1
+  funext k
+  rw [merton_jump_mgf jm js k (Nat.cast_nonneg k), ← Real.exp_nat_mul]
+  congr 2
+  ring
+
+/-- one step of `generate_merton_jump`: the coded drift
+`(mu − sigma²/2 − lam·(e^{jm + js²/2} − 1))·dt` makes the expected growth factor
+`E[S_{i+1}/S_i] = E_z[e^{drift + sigma·z·√dt}] · E[e^{jump}] = e^{mu·dt}` -/
+theorem merton_step_mean (mu sigma lam jm js dt : ℝ) (hdt : 0 ≤ dt) :
+    (∫ z, Real.exp ((mu - sigma * sigma / 2 - lam * (Real.exp (jm + js * js / 2) - 1)) * dt
+          + sigma * (z * Real.sqrt dt)) * phi z)
+      * (∑' k : ℕ, poissonPmf (lam * dt) k
+          * ∫ zj, Real.exp (jm * (k : ℝ) + zj * js * Real.sqrt (k : ℝ)) * phi zj)
+      = Real.exp (mu * dt) := by
+  have e : (fun z => Real.exp ((mu - sigma * sigma / 2
+          - lam * (Real.exp (jm + js * js / 2) - 1)) * dt + sigma * (z * Real.sqrt dt)) * phi z)
+      = fun z => Real.exp ((mu - sigma * sigma / 2
+          - lam * (Real.exp (jm + js * js / 2) - 1)) * dt + (sigma * Real.sqrt dt) * z) * phi z := by
+    funext z; congr 2; ring
+  rw [e, integral_exp_affine_mul_phi, merton_jump_mean, ← Real.exp_add, mul_pow, Real.sq_sqrt hdt,
+    show jm + js * js / 2 = jm + js ^ 2 / 2 by ring]
+  congr 1
+  ring
+
+/-! ### Kou: the compensator `m` is `E[e^J] − 1` for the double-exponential jump law -/
+
+/-- up-jump `J ~ Exp(eta)`, `eta > 1`: `E[e^J] = eta/(eta − 1)` -/
+theorem kou_up_mean (eta : ℝ) (h : 1 < eta) :
+    ∫ x in Ioi (0 : ℝ), Real.exp x * (eta * Real.exp (-eta * x)) = eta / (eta - 1) := by
+  have e : (fun x : ℝ => Real.exp x * (eta * Real.exp (-eta * x)))
+      = fun x => eta * Real.exp ((1 - eta) * x) := by
+    funext x
+    rw [mul_left_comm, ← Real.exp_add]
+    congr 2
+    ring
+  rw [e, integral_const_mul, integral_exp_mul_Ioi (by linarith : 1 - eta < 0)]
+  have h1 : eta - 1 ≠ 0 := by linarith
+  have h2 : 1 - eta ≠ 0 := by linarith
+  simp only [mul_zero, Real.exp_zero]
+  field_simp
+  ring
+
+/-- down-jump `J = −Exp(eta)`, `eta > 0`: `E[e^J] = eta/(eta + 1)` -/
+theorem kou_down_mean (eta : ℝ) (h : 0 < eta) :
+    ∫ x in Ioi (0 : ℝ), Real.exp (-x) * (eta * Real.exp (-eta * x)) = eta / (eta + 1) := by
+  have e : (fun x : ℝ => Real.exp (-x) * (eta * Real.exp (-eta * x)))
+      = fun x => eta * Real.exp ((-1 - eta) * x) := by
+    funext x
+    rw [mul_left_comm, ← Real.exp_add]
+    congr 2
+    ring
+  rw [e, integral_const_mul, integral_exp_mul_Ioi (by linarith : -1 - eta < 0)]
+  have h1 : eta + 1 ≠ 0 := by linarith
+  have h2 : -1 - eta ≠ 0 := by linarith
+  simp only [mul_zero, Real.exp_zero]
+  field_simp
+  ring
+
+/-- the coded `m = (1−p)·η₋/(η₋+1) + p·η₊/(η₊−1) − 1` is `E[e^J] − 1` for
+`J = +Exp(η₊)` with probability `p`, `−Exp(η₋)` with probability `1 − p` -/
+theorem kou_compensator (etaUp etaDown pUp : ℝ) (hu : 1 < etaUp) (hd : 0 < etaDown) :
+    (1 - pUp) * (etaDown / (etaDown + 1)) + pUp * (etaUp / (etaUp - 1)) - 1
+      = ((1 - pUp) * ∫ x in Ioi (0 : ℝ), Real.exp (-x) * (etaDown * Real.exp (-etaDown * x)))
+        + (pUp * ∫ x in Ioi (0 : ℝ), Real.exp x * (etaUp * Real.exp (-etaUp * x))) - 1 := by
+  rw [kou_up_mean etaUp hu, kou_down_mean etaDown hd]
+
+/-- one step of `generate_kou_jump`: with `1 + m = E[e^J]` and a Poisson(`lam·dt`) number of
+independent jumps, the coded drift `(mu − lam·m)·dt − sigma²·dt/2` makes the expected growth
+factor `e^{mu·dt}` -/
+theorem kou_step_mean (mu sigma lam m dt : ℝ) (hdt : 0 ≤ dt) :
+    (∫ z, Real.exp ((mu - lam * m) * dt + z * Real.sqrt dt * sigma - sigma * sigma * dt / 2) * phi z)
+      * (∑' k : ℕ, poissonPmf (lam * dt) k * (1 + m) ^ k)
+      = Real.exp (mu * dt) := by
+  have e : (fun z => Real.exp ((mu - lam * m) * dt + z * Real.sqrt dt * sigma
+          - sigma * sigma * dt / 2) * phi z)
+      = fun z => Real.exp (((mu - lam * m) * dt - sigma * sigma * dt / 2)
+          + (sigma * Real.sqrt dt) * z) * phi z := by
+    funext z; congr 2; ring
+  rw [e, integral_exp_affine_mul_phi, poisson_pgf, ← Real.exp_add, mul_pow, Real.sq_sqrt hdt]
+  congr 1
+  ring
+
+/-! ## non-vacuity -/
+
+/-- a concrete Brownian path (the first draw `5` is discarded) and a concrete geometric one -/
+example : brownian (1 : ℝ) 2 3 1 [5, 1, -1] = [1, 6, 7] ∧
+    geometricBrownian (2 : ℝ) 1 (1 / 2) 1 [9, 1] = [2, 2 * Real.exp 1] := by
+  constructor
+  · rw [brownian_eq]
+    simp [List.range_succ]
+    norm_num
+  · rw [gbm_scan]
+    simp
+
+/-- the step theorems are not vacuous: indices exist -/
+example : ∃ a, (vasicek (3 : ℝ) 1 1 2 1 [7, 8, 9])[1]? = some a ∧
+    (vasicek (3 : ℝ) 1 1 2 1 [7, 8, 9])[2]?
+      = some (1 + Real.exp (-1 * 1) * (a - 1)
+          + 2 * Real.sqrt ((1 - Real.exp (-1 * 1) ^ 2) / 2 / 1) * 8) :=
+  vasicek_step 3 1 1 2 1 [7, 8, 9] 1 (by simp)
+
+/-- zero-intensity reduction on a concrete input -/
+example : mertonJump (1 : ℝ) 0 1 0 5 7 1 [0, 0] [3, 4] [9, 1, 2]
+    = geometricBrownian (1 : ℝ) 1 0 1 [9, 1, 2] :=
+  merton_zero_intensity 1 0 1 5 7 1 [9, 1, 2] [3, 4] (by simp)
+
+/-- the OU variance after one step with `kappa = dt = sigma = 1` is `(1 − e^{−2})/2 > 0`, and the
+Kou up-jump mean at `eta = 2` is `2` -/
+example :
+    iterE (fun x z => (0 : ℝ) + Real.exp (-1 * 1) * (x - 0)
+        + 1 * Real.sqrt ((1 - Real.exp (-1 * 1) ^ 2) / 2 / 1) * z) 1
+        (fun y => (y - (0 + (5 - 0) * Real.exp (-1 * 1 * (1 : ℕ)))) ^ 2) 5
+      = 1 ^ 2 * (1 - Real.exp (-2 * 1 * 1 * (1 : ℕ))) / (2 * 1) ∧
+    0 < (1 : ℝ) ^ 2 * (1 - Real.exp (-2 * 1 * 1 * (1 : ℕ))) / (2 * 1) ∧
+    ∫ x in Ioi (0 : ℝ), Real.exp x * (2 * Real.exp (-2 * x)) = 2 := by
+  refine ⟨(ou_mean_var_n 5 1 0 1 1 zero_le_one 1).2, ?_, ?_⟩
+  · have h : Real.exp (-2 * 1 * 1 * ((1 : ℕ) : ℝ)) < 1 := by
+      rw [Real.exp_lt_one_iff]; norm_num
+    have : 0 < 1 - Real.exp (-2 * 1 * 1 * ((1 : ℕ) : ℝ)) := by linarith
+    positivity
+  · rw [kou_up_mean 2 (by norm_num)]; norm_num
 
 end PfVerif.C10
